@@ -50,15 +50,11 @@ struct World {
     QXmppDiscoveryManagerPrivate *priv;
     Txt capNode;
     QXmppDiscoveryIq caps;
-    explicit World(const Txt &node) : capNode(node)
+    // arbitrary info set: nid (<= 1) identities, nf (<= 2) features
+    static void fill(QXmppDiscoveryIq &iq)
     {
-        // the manager is raw storage: handleIq()/clientCapabilitiesNode() only touch the private block (and capabilities())
-        priv = new QXmppDiscoveryManagerPrivate;
-        new (const_cast<std::unique_ptr<QXmppDiscoveryManagerPrivate> *>(&mgr->d)) std::unique_ptr<QXmppDiscoveryManagerPrivate>(priv);
-        priv->clientCapabilitiesNode = qstr(capNode);
-        // arbitrary info set: nid (<= 1) identities, nf (<= 2) features
-        caps.setType(QXmppIq::Result);
-        caps.setQueryType(QXmppDiscoveryIq::InfoQuery);
+        iq.setType(QXmppIq::Result);
+        iq.setQueryType(QXmppDiscoveryIq::InfoQuery);
         unsigned nid = symCount(0, 1), nf = symCount(1, 2);
         QList<QXmppDiscoveryIq::Identity> il;
         if (nid) {
@@ -66,10 +62,18 @@ struct World {
             id.setCategory(qstr(symTxt())); id.setType(qstr(symTxt())); id.setLanguage(qstr(symTxt())); id.setName(qstr(symTxt()));
             vp_c20_list_push(&il, new QXmppDiscoveryIq::Identity(id));
         }
-        caps.setIdentities(il);
+        iq.setIdentities(il);
         QStringList fl;
         for (unsigned i = 0; i < 2; i++) if (i < nf) { QString q = qstr(symTxt()); vp_c20_strlist_push(&fl, &q); }
-        caps.setFeatures(fl);
+        iq.setFeatures(fl);
+    }
+    explicit World(const Txt &node) : capNode(node)
+    {
+        // the manager is raw storage: handleIq()/clientCapabilitiesNode() only touch the private block (and capabilities())
+        priv = new QXmppDiscoveryManagerPrivate;
+        new (const_cast<std::unique_ptr<QXmppDiscoveryManagerPrivate> *>(&mgr->d)) std::unique_ptr<QXmppDiscoveryManagerPrivate>(priv);
+        priv->clientCapabilitiesNode = qstr(capNode);
+        fill(caps);
         g_caps = &caps;
         // vp_c20_capabilities is only called from the C model of capabilities(): one direct call keeps it in the translated program
         { VpRaw<QXmppDiscoveryIq> probe; vp_c20_capabilities(probe.p()); }
@@ -142,16 +146,13 @@ extern "C" void h_handle_info()
 extern "C" void h_presence_caps()
 {
     World w(symTxt());
-    // client: raw storage; QXmppClient::extensions() is modelled (returns the discovery manager only), so only `q` matters
+    // client: QXmppClient itself is raw storage (QXmppClient::extensions() is modelled and returns the discovery manager only);
+    // its private object is built by the REAL QXmppClientPrivate constructor, so every member - also one added later - is
+    // initialised the way the library initialises it.  The presence is a real QXmppPresence.
     VpRaw<QXmppClient> client; VpRaw<QXmppClientPrivate> cp;
-    cp->q = client.p();
+    new (cp.p()) QXmppClientPrivate(client.p());
     vp_c20_set_extension(w.mgr.p());
-    // presence: raw storage with a private block in which only the three capability members are live
-    VpRaw<QXmppPresence> pres; VpRaw<QXmppPresencePrivate> pp;
-    new (&pp->capabilityHash) QString; new (&pp->capabilityNode) QString; new (&pp->capabilityVer) QByteArray;
-    pp->ref.storeRelaxed(1);
-    new (&pres->d) QSharedDataPointer<QXmppPresencePrivate>(pp.p());
-    pp->ref.storeRelaxed(1);   // the pointer took a reference: keep the block unshared so that the setters do not clone it
+    QXmppPresence presence; QXmppPresence *pres = &presence;
 
     cp->addProperCapability(*pres);
 
@@ -161,4 +162,33 @@ extern "C" void h_presence_caps()
     vp_assert(vp_hash_calls() == 1 && vp_hash_alg(0) == 2 && vp_hash_output_is(0, &ver), "C20 presence advertises the SHA-1 verification string just computed");
     QByteArray vCaps = w.caps.verificationString();
     vp_assert(vp_hash_calls() == 2 && vp_hash_input_eq(0, 1) && vp_hash_same_output(0, 1), "C20 the advertised ver is the verification string of capabilities()");
+}
+
+// Two presences in a row while the client's capabilities change in between (same extension list, nothing inserted or removed):
+// each advertised ver must be the hash of what a disco#info query would be answered with AT THAT MOMENT, i.e. of the info set
+// capabilities() returns then.  A and B are arbitrary (equal or different).
+extern "C" void h_presence_caps_twice()
+{
+    World w(symTxt());
+    QXmppDiscoveryIq capsB; World::fill(capsB);
+    VpRaw<QXmppClient> client; VpRaw<QXmppClientPrivate> cp;
+    new (cp.p()) QXmppClientPrivate(client.p());
+    vp_c20_set_extension(w.mgr.p());
+    QXmppPresence p1, p2;
+
+    cp->addProperCapability(p1);      // capabilities() == A
+    g_caps = &capsB;                  // e.g. setClientName()/setClientInfoForm() on the discovery manager
+    cp->addProperCapability(p2);      // capabilities() == B
+
+    QByteArray ver1 = p1.capabilityVer(), ver2 = p2.capabilityVer();
+    unsigned kA = vp_hash_calls();
+    QByteArray vA = w.caps.verificationString();
+    unsigned kB = vp_hash_calls();
+    QByteArray vB = capsB.verificationString();
+    vp_assert(kB == kA + 1 && vp_hash_calls() == kB + 1, "C20 harness: one hash per reference verification string");
+    // the oracle answers equal octet strings with the same digest block, so "is the digest of call k" does not depend on whether
+    // the client recomputed or (legitimately) reused a value
+    vp_assert(vp_hash_output_is(kA, &ver1), "C20 the first presence advertises the hash of the capabilities at that moment");
+    vp_assert(vp_hash_output_is(kB, &ver2), "C20 a later presence advertises the hash of the CURRENT capabilities (what disco#info answers now)");
+    vp_assert(p2.capabilityHash() == u"sha-1" && p2.capabilityNode() == qstr(w.capNode), "C20 presence advertises sha-1 and the capabilities node");
 }
